@@ -55,6 +55,17 @@ type syncCase struct {
 	uFile   string
 	outage  map[string]bool // op kinds performed while the link was down
 	history map[string]bool
+	midMu   sync.Mutex
+	mid     *midPass
+}
+
+// midPass is a write the harness performs from inside a catch-up pass: it is armed for one of the
+// sync.* hook sites and runs in the sync client's own goroutine when the pass reaches that site, i.e.
+// exactly between two steps of the comparison (local fetch | remote fetch | compare | children).
+type midPass struct {
+	site  string
+	op    func(nodeID string)
+	fired chan struct{}
 }
 
 func (s *syncCase) note(f string, a ...any) {
@@ -252,11 +263,11 @@ func (s *syncCase) diffSides() (class, what string, err error) {
 func runC02(tier string, _ []string) int {
 	c := vlib.NewCtx("C02", tier, "exploration")
 	vlib.SetPortBlock(2)
-	c.SetRule("per scenario a downstream instance (real Sync client, period 1 s) linked to a bare upstream instance; a PRNG history of 6-25 acknowledged steps over {node-point write, edge-point write, create node, delete, undelete} x {downstream, upstream} x nodes inside the device subtree (nested groups), interleaved with link loss (sync node disabled), recovery and upstream restarts on the same file, always followed by a fixed list of corner scenarios (both sides write one identity during an outage; create upstream / downstream during an outage; delete downstream / upstream during an outage; delete + undelete; nested create under a node created during the outage). After the last write the link is up; catch-up passes are counted passively (nodes.all.<device> requests on the downstream bus) and after each pass both device subtrees are walked (deleted included) and compared: placements, newest point per identity of every node and edge. Convergence is demanded within 10 passes and must then hold on two consecutive walks; the agreed value of every identity the harness wrote must be at least as new as the newest acknowledged write on either side, and anything newer must have been seen on a bus. distinct = (set of operation kinds performed during outages, passes needed)")
+	c.SetRule("per scenario a downstream instance (real Sync client, period 1 s) linked to a bare upstream instance; a PRNG history of 6-25 acknowledged steps over {node-point write, edge-point write, create node, delete, undelete} x {downstream, upstream} x nodes inside the device subtree (nested groups), interleaved with link loss (sync node disabled), recovery, upstream restarts on the same file and writes placed *inside* a catch-up pass (performed from the sync.afterLocalFetch / afterRemoteFetch / beforeChildren hook sites in the sync client's own goroutine, aimed at the node the pass is comparing), always followed by a fixed list of corner scenarios (both sides write one identity during an outage; create upstream / downstream during an outage; delete downstream / upstream during an outage; delete + undelete; nested create under a node created during the outage). After the last write the link is up; catch-up passes are counted passively (nodes.all.<device> requests on the downstream bus) and after each pass both device subtrees are walked (deleted included) and compared: placements, newest point per identity of every node and edge. Convergence is demanded within 10 passes and must then hold on two consecutive walks; the agreed value of every identity the harness wrote must be at least as new as the newest acknowledged write on either side, and anything newer must have been seen on a bus. distinct = (set of operation kinds performed during outages, passes needed)")
 	c.Assume("the device's own top edge upstream is not compared (deliberately not synchronised); origins and data are not compared (whole-node transfer stamps the sync node as origin); equal timestamps on one identity are not generated")
-	nScen := c.N(8, 80)
+	nScen := c.N(12, 96)
 	wd := c.NewWatchdog()
-	corners := []string{"both-write-same-identity", "create-upstream", "create-downstream", "delete-downstream", "delete-upstream", "delete-undelete-downstream", "nested-create-downstream", "nested-create-upstream", "upstream-restart", "random", "random", "random"}
+	corners := []string{"both-write-same-identity", "create-upstream", "create-downstream", "delete-downstream", "delete-upstream", "delete-undelete-downstream", "nested-create-downstream", "nested-create-upstream", "upstream-restart", "mid-pass", "random", "random"}
 	vlib.Parallel(nScen, 4, func(i int) {
 		r := vlib.NewR(c.Seed, "c02", i)
 		s := &syncCase{c: c, wd: wd, i: i, r: r, clock: 1750000000e9, tapped: map[string]bool{}, outage: map[string]bool{}, history: map[string]bool{}}
@@ -295,6 +306,26 @@ func runC02(tier string, _ []string) int {
 			return
 		}
 		s.linkUp = true
+		rmHook := addClientHook(func(site string, args ...any) {
+			if !strings.HasPrefix(site, "sync.") || len(args) < 3 {
+				return
+			}
+			if sid, _ := args[0].(string); sid != s.syncID {
+				return
+			}
+			s.midMu.Lock()
+			m := s.mid
+			if m == nil || m.site != site {
+				s.midMu.Unlock()
+				return
+			}
+			s.mid = nil
+			s.midMu.Unlock()
+			id, _ := args[2].(string)
+			m.op(id) // the scenario goroutine is parked on m.fired meanwhile
+			close(m.fired)
+		})
+		defer rmHook()
 		fail := func(sig, what string, extra map[string]any) { c.Violate(sig, what, s.wit(extra)) }
 		// initial transfer
 		s.waitPasses(2, "initial transfer")
@@ -413,6 +444,73 @@ func runC02(tier string, _ []string) int {
 			}
 			return scErr == nil
 		}
+		// a write placed inside a catch-up pass (link up)
+		midStep := func() {
+			site := []string{"sync.afterLocalFetch", "sync.afterRemoteFetch", "sync.beforeChildren"}[r.Intn(3)]
+			side := []string{"D", "U"}[r.Intn(2)]
+			roll := r.Intn(100)
+			m := &midPass{site: site, fired: make(chan struct{})}
+			m.op = func(id string) {
+				var n *syncNodeRec
+				for _, x := range s.nodes {
+					if x.ID == id && ((side == "D" && x.OnD) || (side == "U" && x.OnU)) {
+						n = x
+					}
+				}
+				if n == nil {
+					n = pick(side)
+				}
+				if n == nil {
+					return
+				}
+				s.note("MIDPASS at %s (pass is at node %s): next step happens inside the pass", site, id)
+				mark("midpass@" + strings.TrimPrefix(site, "sync."))
+				switch {
+				case roll < 50:
+					step(nodeWrite(side, n))
+				case roll < 65:
+					step(edgeWrite(side, n))
+				case roll < 80:
+					step(setDeleted(side, n, !n.Deleted))
+				default:
+					var par *syncNodeRec
+					if n.Type == "group" && !n.Deleted {
+						par = n
+					}
+					_, e := create(side, par, []string{"group", "variable"}[r.Intn(2)])
+					step(e)
+				}
+				c.Count("writes_placed_inside_a_pass:"+strings.TrimPrefix(site, "sync."), 1)
+			}
+			done := s.wd.Watch("sync:no-catch-up-pass-while-link-up", s.wit(map[string]any{"waiting_for": "mid-pass write at " + site}), 120*time.Second, true)
+			defer done()
+			s.midMu.Lock()
+			s.mid = m
+			s.midMu.Unlock()
+			target := atomic.LoadInt64(&s.passes) + 3
+			for {
+				select {
+				case <-m.fired:
+					return
+				default:
+				}
+				if atomic.LoadInt64(&s.passes) >= target {
+					// the site was not reached (sites below the root are only passed when hashes differ)
+					s.midMu.Lock()
+					mine := s.mid == m
+					if mine {
+						s.mid = nil
+					}
+					s.midMu.Unlock()
+					if mine {
+						return
+					}
+					<-m.fired // it is running right now
+					return
+				}
+				time.Sleep(2 * time.Millisecond)
+			}
+		}
 		g1, e := create("D", nil, "group")
 		step(e)
 		var v1, v2 *syncNodeRec
@@ -471,6 +569,14 @@ func runC02(tier string, _ []string) int {
 					_, e = create("U", ng, "variable")
 					step(e)
 				}
+			case "mid-pass":
+				// make the hashes differ first so that the pass descends, then write inside it
+				step(nodeWrite("U", v1))
+				midStep()
+				if step(nil) {
+					step(nodeWrite("D", v2))
+					midStep()
+				}
 			case "upstream-restart":
 				step(nodeWrite("D", v1))
 				step(restartU())
@@ -511,6 +617,8 @@ func runC02(tier string, _ []string) int {
 				}
 			case roll < 88 && s.linkUp:
 				step(restartU())
+			case roll < 96 && s.linkUp:
+				midStep()
 			default:
 				step(nodeWrite(side, n))
 			}
